@@ -159,7 +159,10 @@ func (c *Ctx) lenLower(x ssa.Value, at ssa.Instruction) (int64, string) {
 
 // Discharge tries the automatic rules on a mapped site.
 func (c *Ctx) Discharge(s *Site) Result {
-	if s.CallExpr != nil {
+	if s.IsCall {
+		if s.Expanded {
+			return Result{true, "inlined-repo-callee", "bounds check belongs to " + s.Callee + ", whose own sites are listed separately"}
+		}
 		if s.CalleeFn != nil && c.P.IsRepo(s.CalleeFn) {
 			return Result{true, "inlined-repo-callee", "bounds check belongs to inlined " + s.Callee + ", whose own sites are listed separately"}
 		}
